@@ -217,6 +217,8 @@ def check_types(rep, db, f, inst):
 
 def slot_of_fn(db, t):
     t = strip_casts(t)
+    if isinstance(t, tuple) and t[:1] == ("addr",) and isinstance(t[1], tuple) and t[1][:1] == ("fn",):
+        t = t[1]
     if isinstance(t, tuple) and t[:1] == ("fn",):
         fn = db.fn_by_id.get(t[2])
         if fn and fn["sn"] == "callback_trampoline":
@@ -226,10 +228,104 @@ def slot_of_fn(db, t):
     return None
 
 
-def idx_store(e, arr):
-    """STORE into this->arr[i] -> i"""
-    if e.kind == "STORE" and e.a[0] == "idx" and e.a[1] == ("fld", THIS_OBJ, arr):
-        return e.a[2]
+HOLE = ("hole",)
+
+
+class SlotLayout:
+    """Where a backend keeps, for slot i, the registered key and the entry point - discovered from what impl_register_callback(key,
+    callback) stores, not assumed: two parallel arrays (`keys[i]`, `fns[i]`), an array of structs (`slots[i].key`, `slots[i].fn`), ...
+    A cell is an lvalue pattern over the backend object (THIS_OBJ in the sample) with a hole at the index."""
+
+    def __init__(self):
+        self.pat = {}
+
+    @staticmethod
+    def _abstract(lv):
+        """replace the (single) index position of an element lvalue by HOLE; None when there is none"""
+        if not isinstance(lv, tuple):
+            return None
+        if lv[:1] == ("idx",) and SlotLayout._rooted(lv[1]):
+            return ("idx", lv[1], HOLE), lv[2]
+        if lv[:1] == ("elem",) and SlotLayout._rooted(lv[2]):
+            # the generic element of a loop over the table: an (unnamed) index of its own
+            return ("idx", lv[2], HOLE), ("elemidx", lv[1])
+        if lv[:1] == ("fld",):
+            r = SlotLayout._abstract(lv[1])
+            if r is not None:
+                return ("fld", r[0], lv[2]), r[1]
+        return None
+
+    @staticmethod
+    def _rooted(lv):
+        while isinstance(lv, tuple) and lv[:1] in (("fld",), ("idx",)):
+            lv = lv[1]
+        return lv == THIS_OBJ
+
+    def learn(self, role, lv):
+        r = self._abstract(lv)
+        if r is not None:
+            self.pat.setdefault(role, r[0])
+        return r
+
+    def index_of(self, role, lv):
+        """index term if lv is the `role` cell of this backend object, else None"""
+        r = self._abstract(lv) if isinstance(lv, tuple) else None
+        if r is not None and self.pat.get(role) == r[0]:
+            return r[1]
+        return None
+
+    def cell(self, role, idx, base=THIS_OBJ):
+        def sub(t):
+            if t == HOLE:
+                return idx
+            if t == THIS_OBJ:
+                return base
+            if isinstance(t, tuple) and t[:1] == ("idx",) and t[2] == HOLE and isinstance(idx, tuple) and idx[:1] == ("elemidx",):
+                return ("elem", idx[1], sub(t[1]))
+            return tuple(sub(x) for x in t) if isinstance(t, tuple) else t
+        return sub(self.pat[role]) if role in self.pat else None
+
+    def table(self, role):
+        """the lvalue of the array that holds the `role` cells"""
+        t = self.pat.get(role)
+        while isinstance(t, tuple) and t[:1] == ("fld",) and not (isinstance(t[1], tuple) and t[1] == THIS_OBJ):
+            if isinstance(t[1], tuple) and t[1][:1] == ("idx",):
+                return t[1][1]
+            t = t[1]
+        return t[1] if isinstance(t, tuple) and t[:1] == ("idx",) else t
+
+
+_LAYOUTS = {}
+
+
+def slot_layout(db, f):
+    """layout of the backend class f belongs to (cached per record)"""
+    key_ = (id(db), f.get("rid"))
+    if key_ in _LAYOUTS:
+        return _LAYOUTS[key_]
+    lay = SlotLayout()
+    for g in db.functions:
+        if g.get("rid") == f.get("rid") and g.get("sn") == "impl_register_callback" and "body" in g and not g["dep"]:
+            kp, cp = ("p", g["params"][0]["n"]), ("p", g["params"][1]["n"])
+            try:
+                for p in Engine(db).run(g):
+                    for e in p.events:
+                        if e.kind == "STORE" and e.b == kp:
+                            lay.learn("key", e.a)
+                        elif e.kind == "STORE" and e.b == cp:
+                            lay.learn("fn", e.a)
+            except Inconclusive:
+                pass
+            if "key" in lay.pat and "fn" in lay.pat:
+                break
+    _LAYOUTS[key_] = lay
+    return lay
+
+
+def idx_store(e, lay, role):
+    """STORE into the `role` cell of slot i of this backend object -> i"""
+    if e.kind == "STORE":
+        return lay.index_of(role, e.a)
     return None
 
 
@@ -237,11 +333,34 @@ def check_register_slots(rep, db, f, inst):
     rule = "R-C12-slots"
     ps = Engine(db).run(f)
     key, cb = ("p", f["params"][0]["n"]), ("p", f["params"][1]["n"])
+    lay = slot_layout(db, f)
+    if "key" not in lay.pat or "fn" not in lay.pat:
+        rep.violation(rule, site(f), "registration does not store the key and the entry point into per-slot cells of the backend object", f["loc"], inst)
+        return
     nslots = 0
     for p in ps:
         slot = slot_of_fn(db, p.retval)
-        ks = [(idx_store(e, "callback_unique_keys"), e.b) for e in p.events if idx_store(e, "callback_unique_keys") is not None]
-        cs = [(idx_store(e, "callbacks"), e.b) for e in p.events if idx_store(e, "callbacks") is not None]
+        tv = strip_casts(p.retval)
+        if slot is None and isinstance(tv, tuple) and tv[:1] == ("rd",) and isinstance(tv[1], tuple) and tv[1][:1] == ("idx",):
+            # the trampoline is taken from a constant table at a run-time index: fine when entry k of the table is trampoline<k> for
+            # every k - then the returned trampoline's number IS that index
+            gname = tv[1][1][1].split("::")[-1] if isinstance(tv[1][1], tuple) and tv[1][1][:1] == ("global",) else None
+            tab = next((v_ for k_, v_ in p.state.mem.items() if isinstance(k_, tuple) and k_[:1] == ("statictable",) and k_[1][1].split(":")[-1] == gname), None)
+            if tab and all(slot_of_fn(db, x) == k for k, x in enumerate(tab)):
+                sym = tv[1][2]
+                ks_ = [(idx_store(e, lay, "key"), e.b) for e in p.events if idx_store(e, lay, "key") is not None]
+                cs_ = [(idx_store(e, lay, "fn"), e.b) for e in p.events if idx_store(e, lay, "fn") is not None]
+                conds_ = q.conds_before(p, len(p.events))
+                if ks_ == [(sym, key)] and cs_ == [(sym, cb)] and ("cmp", "==", ("rd", lay.cell("key", sym)), C(0)) in conds_ and \
+                        (("cmp", "<", sym, C(len(tab))) in conds_ or (sym[:1] == ("c",) and 0 <= sym[1] < len(tab))) and \
+                        any(e.kind == "CALL" and q.short(e.a) in q.EXCLUSIVE_GUARDS for e in p.events):
+                    nslots += len(tab)
+                    continue
+                rep.violation(rule, site(f) + " [index agreement]", "the trampoline is read from a table at index %s but key/interceptor are stored at %s / %s (or the slot is not tested free / in range)" % (
+                    fmt(sym), [(fmt(i), fmt(v)) for i, v in ks_], [(fmt(i), fmt(v)) for i, v in cs_]), f["loc"], inst)
+                return
+        ks = [(idx_store(e, lay, "key"), e.b) for e in p.events if idx_store(e, lay, "key") is not None]
+        cs = [(idx_store(e, lay, "fn"), e.b) for e in p.events if idx_store(e, lay, "fn") is not None]
         if slot is None:
             if ks or cs:
                 rep.violation(rule, site(f), "a path stores a registration but does not return its trampoline", f["loc"], inst)
@@ -263,7 +382,7 @@ def check_register_slots(rep, db, f, inst):
         if ks != [(C(slot), key)] or cs != [(C(slot), cb)]:
             rep.violation(rule, site(f) + " [index agreement]", "trampoline<%d> is returned but key/interceptor are stored at %s / %s" % (slot, [(fmt(i), fmt(v)) for i, v in ks], [(fmt(i), fmt(v)) for i, v in cs]), f["loc"], inst)
             return
-        if not any(("cmp", "==", ("rd", ("idx", ("fld", THIS_OBJ, "callback_unique_keys"), ix)), C(0)) in conds for ix in same):
+        if not any(("cmp", "==", ("rd", lay.cell("key", ix)), C(0)) in conds for ix in same):
             rep.violation(rule, site(f), "slot %d is taken without testing that it is free" % slot, f["loc"], inst)
             return
         if not any(e.kind == "CALL" and q.short(e.a) in q.EXCLUSIVE_GUARDS for e in p.events):
@@ -299,7 +418,8 @@ def check_trampoline(rep, db, f, inst):
             rep.violation(rule, site(f) + " [trampoline]", "interceptor not called exactly once", f["loc"], inst)
             return
         tgt = _tgt((ic[0].extra or {}).get("target"))
-        want = ("rd", ("idx", ("fld", ("deref", ("rd", ("fld", td, "sandbox"))), "callbacks"), C(N)))
+        lay = slot_layout(db, f)
+        want = ("rd", lay.cell("fn", C(N), base=("deref", ("rd", ("fld", td, "sandbox")))))
         if tgt != want:
             rep.violation(rule, site(f) + " [trampoline]", "trampoline<%s> calls %s instead of the per-thread sandbox's callbacks[%s]" % (N, fmt(tgt), N), f["loc"], inst)
             return
@@ -345,7 +465,8 @@ def check_get_executed(rep, db, f, inst):
             rep.violation(rule, site(f), "the sandbox reported is %s, not the per-thread sandbox" % fmt(sb), f["loc"], inst)
             return
         td = strip_casts(sb)[1][1]
-        want = ("rd", ("idx", ("fld", ("deref", sb), "callback_unique_keys"), ("rd", ("fld", td, "last_callback_invoked"))))
+        lay = slot_layout(db, f)
+        want = ("rd", lay.cell("key", ("rd", ("fld", td, "last_callback_invoked")), base=("deref", sb)))
         if strip_casts(key) != want:
             rep.violation(rule, site(f), "the key reported is %s, not callback_unique_keys[last_callback_invoked] of the per-thread sandbox" % fmt(key), f["loc"], inst)
             return
@@ -358,8 +479,9 @@ def check_unregister_slots(rep, db, f, inst):
     key = ("p", f["params"][0]["n"])
     cleared = 0
     for p in ps:
-        ks = [idx_store(e, "callback_unique_keys") for e in p.events if idx_store(e, "callback_unique_keys") is not None and e.b == C(0)]
-        cs = [idx_store(e, "callbacks") for e in p.events if idx_store(e, "callbacks") is not None and e.b == C(0)]
+        lay = slot_layout(db, f)
+        ks = [idx_store(e, lay, "key") for e in p.events if idx_store(e, lay, "key") is not None and e.b == C(0)]
+        cs = [idx_store(e, lay, "fn") for e in p.events if idx_store(e, lay, "fn") is not None and e.b == C(0)]
         if not ks and not cs:
             continue
         cleared += 1
@@ -368,7 +490,7 @@ def check_unregister_slots(rep, db, f, inst):
         if not ks and len(cs) == 1:
             def is_find(t):
                 return (isinstance(t, tuple) and t[:1] == ("ucall",) and q.short(t[2]) == "find" and len(t[3]) >= 3 and q.mentions(t[3][2], lambda x: x == key or (isinstance(x, tuple) and x[:2] == ("var", "P") and x[2] == key[1])) and
-                        all(q.mentions(a, lambda x: x == ("fld", THIS_OBJ, "callback_unique_keys")) for a in t[3][:2]))
+                        all(q.mentions(a, lambda x: x == lay.table("key")) for a in t[3][:2]))
             conds = q.conds_before(p, len(p.events))
 
             def points_at_key(P):
@@ -378,7 +500,7 @@ def check_unregister_slots(rep, db, f, inst):
             if len(via_it) == 1:
                 F = via_it[0]
                 dist_ok = q.mentions(cs[0], lambda x: isinstance(x, tuple) and x[:1] in (("ptrdiff",), ("bin",), ("lin",)) and q.mentions(x, lambda y: y == F)) and \
-                    q.mentions(cs[0], lambda x: x == ("fld", THIS_OBJ, "callback_unique_keys"))
+                    q.mentions(cs[0], lambda x: x == lay.table("key"))
                 found_ok = any(q.mentions(c, lambda x: x == F) for c in conds)
                 if dist_ok and found_ok:
                     continue
@@ -388,7 +510,7 @@ def check_unregister_slots(rep, db, f, inst):
             rep.violation(rule, site(f), "key and interceptor are not cleared at one and the same index (%s vs %s)" % ([fmt(x) for x in ks], [fmt(x) for x in cs]), f["loc"], inst)
             return
         conds = q.conds_before(p, len(p.events))
-        cell = ("rd", ("idx", ("fld", THIS_OBJ, "callback_unique_keys"), ks[0]))
+        cell = ("rd", lay.cell("key", ks[0]))
         if not any(c[0] == "cmp" and c[1] == "==" and set((c[2], c[3])) == {key, cell} for c in conds):
             rep.violation(rule, site(f), "the slot cleared is not the slot whose key matched", f["loc"], inst)
             return
